@@ -17,6 +17,8 @@ package main
 
 import (
 	"bytes"
+	"crypto/sha1"
+	"encoding/hex"
 	"encoding/json"
 	"flag"
 	"fmt"
@@ -365,6 +367,31 @@ func interesting(s ast.Stmt) (bool, string) {
 	return found, label
 }
 
+var (
+	siteMap  = map[string]string{} // statement-index name (old scheme) -> stable name
+	allSites []string
+)
+
+func stmtHash(fset *token.FileSet, s ast.Stmt) string {
+	var buf bytes.Buffer
+	// hash only the head of compound statements (their bodies get their own sites)
+	var n ast.Node = s
+	switch st := s.(type) {
+	case *ast.IfStmt:
+		n = &ast.IfStmt{Init: st.Init, Cond: st.Cond, Body: &ast.BlockStmt{}}
+	case *ast.ForStmt:
+		n = &ast.ForStmt{Init: st.Init, Cond: st.Cond, Post: st.Post, Body: &ast.BlockStmt{}}
+	case *ast.SwitchStmt:
+		n = &ast.SwitchStmt{Init: st.Init, Tag: st.Tag, Body: &ast.BlockStmt{}}
+	case *ast.SelectStmt:
+		n = &ast.SelectStmt{Body: &ast.BlockStmt{}}
+	}
+	printer.Fprint(&buf, token.NewFileSet(), n)
+	txt := strings.Join(strings.Fields(buf.String()), " ")
+	sum := sha1.Sum([]byte(txt))
+	return hex.EncodeToString(sum[:3])
+}
+
 func doVsched(repo, out, shimDir string, ov *overlay, stats map[string]int) {
 	total := 0
 	for _, relp := range vschedFiles {
@@ -386,6 +413,7 @@ func doVsched(repo, out, shimDir string, ov *overlay, stats map[string]int) {
 			}
 			fname := fd.Name.Name
 			counter := 0
+			seen := map[string]int{}
 			var instrBlock func(list []ast.Stmt) []ast.Stmt
 			var instrStmt func(s ast.Stmt)
 			instrBlock = func(list []ast.Stmt) []ast.Stmt {
@@ -393,7 +421,19 @@ func doVsched(repo, out, shimDir string, ov *overlay, stats map[string]int) {
 				for _, s := range list {
 					if ok, label := interesting(s); ok {
 						counter++
-						site := base + ":" + fname + ":" + strconv.Itoa(counter) + ":" + label
+						oldSite := base + ":" + fname + ":" + strconv.Itoa(counter) + ":" + label
+						// Stable site name: file:func:op:hash-of-the-statement-text (+ ~k for repeats inside the
+						// function). It only changes when that very statement is edited, not when code is added
+						// or removed elsewhere in the function.
+						h := stmtHash(fset, s)
+						stem := base + ":" + fname + ":" + label + ":" + h
+						seen[stem]++
+						site := stem
+						if seen[stem] > 1 {
+							site = stem + "~" + strconv.Itoa(seen[stem])
+						}
+						siteMap[oldSite] = site
+						allSites = append(allSites, site)
 						outl = append(outl, &ast.ExprStmt{X: &ast.CallExpr{
 							Fun:  &ast.SelectorExpr{X: ast.NewIdent("vsched"), Sel: ast.NewIdent("Point")},
 							Args: []ast.Expr{&ast.BasicLit{Kind: token.STRING, Value: strconv.Quote(site)}},
@@ -466,4 +506,8 @@ func doVsched(repo, out, shimDir string, ov *overlay, stats map[string]int) {
 	}
 	stats["vsched_sites"] = total
 	addShim(out, repo, shimDir, "vsched", ov)
+	mb, _ := json.MarshalIndent(siteMap, "", " ")
+	os.WriteFile(filepath.Join(out, "sitemap.json"), mb, 0o644)
+	sort.Strings(allSites)
+	os.WriteFile(filepath.Join(out, "sites.txt"), []byte(strings.Join(allSites, "\n")+"\n"), 0o644)
 }
